@@ -313,26 +313,28 @@ def contact (ops : List String) : String :=
       | op :: r => let (st1, o) := Contact.step st op; go st1 r (contactTok o :: acc)
     String.intercalate " " (go Contact.init ops [])
 
-/-! ### lookup (lookup files; ONE name space: the tenant digit says for which org the request is made, the
-   handlers take no org id and the model has none):
+/-! ### lookup (lookup files; one directory per org — the tenant digit says for which org the request is made; WITH patch
+   c13-1, before it the handlers took no org id):
      c<t>.<name>=<content> upload   u<t>.<name>=<content> upload with overwrite=true   (C / U: the uploaded file is a .csv.gz)
      g<t>.<name> get   d<t>.<name> delete   l<t> list   R -/
 def lookupOp? (s : String) : Option Lookup.Op :=
   if s = "R" then some .restart else
-  if s = "l0" || s = "l1" || s = "l2" then some .list else
   match s.toList with
+  | ['l', c] => (tenant? c).map (fun t => .list t)
   | o :: c :: '.' :: r =>
-    if (tenant? c).isNone then none else
+    match tenant? c with
+    | none => none
+    | some t =>
     let rest := String.ofList r
     if o = 'c' || o = 'u' || o = 'C' || o = 'U' then
       match split1 rest '=' with
       | some (k, v) => match key? k, isHexLower v with
-        | some k, true => some (.upload k v (o = 'u' || o = 'U') (o = 'C' || o = 'U'))
+        | some k, true => some (.upload t k v (o = 'u' || o = 'U') (o = 'C' || o = 'U'))
         | _, _ => none
       | none => none
     else if o = 'g' || o = 'd' then
       match key? rest with
-      | some k => if !Alias.validIndex k then none else some (if o = 'g' then .get k else .delete k)
+      | some k => if !Alias.validIndex k then none else some (if o = 'g' then .get t k else .delete t k)
       | none => none
     else none
   | _ => none
